@@ -293,6 +293,8 @@ def c_to_s(ctx: Ctx):
         ctx.violation(f"trace|{ev.get('a')}", f"recorded history {r.index} ({CONCS[r.index % len(CONCS)]} times): events 1..{r.upto} are a behaviour of EventList.tla, "
                       f"event {r.upto + 1} {ev} is not (invariant={getattr(r, 'invariant', None)})",
                       {"trace": r.trace, "explained": r.upto, "conc": CONCS[r.index % len(CONCS)]})
+    if ctx.violations:
+        return
     # binding self-test: corrupt one logged result in an accepted trace -> must be rejected
     good = [t for i, t in enumerate(trs) if i not in {r.index for r in rej}]
     bad = []
